@@ -222,6 +222,80 @@ impl<'tcx> Cx<'tcx> {
         format!("{{\"l\":{},\"p\":[{}],\"ty\":{}}}", p.local.as_usize(), projs.join(","), fin)
     }
 
+    /// value of a constant of type `ty` stored at `off` in `alloc`, as nested JSON (ints, bools, chars, field-less enums,
+    /// tuples / structs / arrays of those); None when the type is outside that fragment
+    fn mem_value_json(&mut self, a: &rustc_middle::mir::interpret::Allocation, off: usize, ty: Ty<'tcx>, depth: u32) -> Option<String> {
+        let tcx = self.tcx;
+        if depth > 4 {
+            return None;
+        }
+        let typing_env = TypingEnv::fully_monomorphized();
+        let layout = tcx.layout_of(typing_env.as_query_input(ty)).ok()?;
+        let size = layout.size.bytes() as usize;
+        if off + size > a.len() {
+            return None;
+        }
+        let read = |lo: usize, n: usize| -> u128 {
+            let b = a.inspect_with_uninit_and_ptr_outside_interpreter(lo..lo + n);
+            let mut v: u128 = 0;
+            for (i, x) in b.iter().enumerate() {
+                v |= (*x as u128) << (8 * i);
+            }
+            v
+        };
+        if ty.is_integral() || ty.is_bool() || ty.is_char() {
+            if size == 0 || size > 16 {
+                return None;
+            }
+            return Some(format!("{{\"int\":\"{}\",\"bits\":{}}}", read(off, size), if ty.is_bool() { 1 } else { size * 8 }));
+        }
+        match ty.kind() {
+            ty::Adt(def, gargs) if def.is_enum() => {
+                if !def.variants().iter().all(|v| v.fields.is_empty()) || size == 0 || size > 16 {
+                    return None;
+                }
+                let v = read(off, size);
+                for (vidx, d) in def.discriminants(tcx) {
+                    if d.val == v {
+                        let _ = gargs;
+                        return Some(format!("{{\"variant\":{},\"vname\":{}}}", vidx.as_usize(), esc(def.variant(vidx).name.as_str())));
+                    }
+                }
+                None
+            }
+            ty::Adt(def, gargs) if def.is_struct() => {
+                let mut parts = Vec::new();
+                for (i, fd) in def.non_enum_variant().fields.iter().enumerate() {
+                    let fty = fd.ty(tcx, gargs);
+                    let foff = off + layout.fields.offset(i).bytes() as usize;
+                    parts.push(self.mem_value_json(a, foff, fty, depth + 1)?);
+                }
+                Some(format!("{{\"fields\":[{}]}}", parts.join(",")))
+            }
+            ty::Tuple(tys) => {
+                let mut parts = Vec::new();
+                for (i, fty) in tys.iter().enumerate() {
+                    let foff = off + layout.fields.offset(i).bytes() as usize;
+                    parts.push(self.mem_value_json(a, foff, fty, depth + 1)?);
+                }
+                Some(format!("{{\"fields\":[{}]}}", parts.join(",")))
+            }
+            ty::Array(elem, _) => {
+                let el = tcx.layout_of(typing_env.as_query_input(*elem)).ok()?;
+                let esize = el.size.bytes() as usize;
+                if esize == 0 || size / esize > 1024 {
+                    return None;
+                }
+                let mut parts = Vec::new();
+                for i in 0..(size / esize) {
+                    parts.push(self.mem_value_json(a, off + i * esize, *elem, depth + 1)?);
+                }
+                Some(format!("{{\"elems\":[{}]}}", parts.join(",")))
+            }
+            _ => None,
+        }
+    }
+
     fn scalar_json(&mut self, sc: Scalar, ty: Ty<'tcx>) -> String {
         let tcx = self.tcx;
         match sc {
@@ -304,6 +378,13 @@ impl<'tcx> Cx<'tcx> {
                                         }
                                         out = format!("{{\"ref_int\":\"{}\",\"bits\":{}{}}}", v, size * 8, extra);
                                     }
+                                }
+                            }
+                            // general fragment: nested tuples / structs / arrays / field-less enums of scalars
+                            if out == "{\"mem\":true}" && !matches!(pointee.kind(), ty::Ref(..)) {
+                                let base = ptr.into_raw_parts().1.bytes() as usize;
+                                if let Some(v) = self.mem_value_json(alloc.inner(), base, *pointee, 0) {
+                                    out = format!("{{\"ref_val\":{}}}", v);
                                 }
                             }
                             // reference to a constant array of integers (lookup tables)
